@@ -64,7 +64,10 @@ VARIABLES
 vars == <<llog, lsnap, nextHid, fup, flast, fsm, fmem, finst, ffile, sess, strm, ops, hist>>
 
 SM == INSTANCE StateMachine WITH log <- <<>>, applied <- 0, sm <- 0, snaps <- <<>>, partial <- 0, capturing <- 0,
-                                 ops <- 0, hist <- <<>>, Defect_StaleSnapshotTail <- FALSE, Defect_NonAtomicCapture <- FALSE
+                                 ops <- 0, hist <- <<>>, Defect_StaleSnapshotTail <- FALSE, Defect_NonAtomicCapture <- FALSE,
+                                 CTypes <- {""}, CDescs <- {""}, IKeys <- {}, IWeights <- {}, CaKeys <- {}, CaVals <- {},
+                                 TKeys <- {}, TVals <- {}, SrvIds <- {},
+                                 Defect_McpStickyRefs <- FALSE, Defect_McpRcLostAtSnapshot <- FALSE
 
 NoSnap == [none |-> TRUE]
 NoSess == [none |-> TRUE]
@@ -95,10 +98,10 @@ Init ==
 
 \* ------------------------------------------------------------------ leader
 LWrite(r0) ==
-    LET r == SM!Stamp(r0, nextHid) IN
+    LET r == SM!Stamp(SM!Empty, r0, nextHid) IN
     /\ Len(llog) < MaxLog
     /\ llog' = Append(llog, r)
-    /\ nextHid' = IF r.t = "cfg_set" THEN nextHid + 1 ELSE nextHid
+    /\ nextHid' = nextHid + SM!Inc(r0)
     /\ UNCHANGED <<lsnap, fup, flast, fsm, fmem, finst, ffile, sess, strm>>
     /\ Step([op |-> "lwrite", index |-> Len(llog) + 1, req |-> r])
 
